@@ -38,7 +38,8 @@ def run(facts, rep, tier):
     rep.trusted = ["rustc MIR", "E2 XOR-linear domain", "reference CRC-24 (sq/ref/crc.py)", "Rust borrow rules (one &mut to the table while the entry is live)"]
     for rid, txt in [("R03.1", "address = AA for DF11/17/18, AP xor CRC for DF0/4/5/16/20/21"), ("R03.2", "zero address dropped"),
                      ("R03.3", "CRC-24 identity for all payloads"), ("R03.4", "single writer of the table, keyed by the line's address"),
-                     ("R03.5", "Plane.icao stores = the key")]:
+                     ("R03.5", "Plane.icao stores = the key"),
+                     ("R03.6", "after the gates only -f, the record decode and I/O errors can keep a frame from the table updater")]:
         rep.rule(rid, txt, "P")
     out = k2_results(facts, tier)
     results = out["results"]
@@ -148,6 +149,58 @@ def run(facts, rep, tier):
     rep.sample({"rule": "R03.4", "updater_args": kinds})
     if not ok:
         rep.add(Finding("R03.4", "updater arguments %s" % kinds, "update_aircraft receives values that are not derived from the current line: %s" % kinds, reg.loc(sbi)))
+    # R03.6: every accepted frame reaches the updater.  After the last gate (get_icao returned an address) the only decisions
+    # that may steer an iteration past the table update are the -f filter, the Ok/Err of decoding the frame into a record and
+    # the `?` of an I/O result (which ends the run, not the line)
+    from ..lineexpr import walk as _walk
+    from ..mirq import field_reads as _fr
+    n6 = 0
+    try:
+        gates = reg.gates()
+        last_gate_targets = [tgt for _, tgt in gates["get_icao"][1]]
+        filt_readers = {r_["body"].name for r_ in _fr(facts, "Args", "filter")}
+        after = set()
+        for tgt in last_gate_targets:
+            after |= reg.reach(start=tgt)
+        can_reach_upd = {bi for bi in after if sbi in reg.reach(start=bi)}
+        for bi in sorted(can_reach_upd):
+            t = reg.proc.blocks[bi]["term"]
+            if t["k"] != "switch" or bi == sbi:
+                continue
+            succs = [b_ for _, b_ in t["targets"]] + [t["otherwise"]]
+            skipping = [b_ for b_ in succs if b_ in reg.blocks and b_ not in can_reach_upd
+                        and reg.proc.blocks[b_]["term"]["k"] != "unreachable"]
+            if not skipping or all(b_ in can_reach_upd for b_ in succs):
+                continue
+            n6 += 1
+            de = expr(reg.du, t["discr"])
+            nodes = list(_walk(de))
+            why = None
+            if any((x[0] == "arg" and "filter" in tuple(x[2])) or (x[0] == "call" and x[1] in filt_readers) for x in nodes):
+                why = "the -f filter"
+            else:
+                # the Ok/Err (Some/None) of decoding the frame into a record, or of an I/O call - the decision must BE that
+                # discriminant, not some predicate computed from the record
+                inner = de
+                if inner[0] == "discr":
+                    inner = inner[1]
+                    while inner[0] == "path":
+                        inner = inner[1]
+                    while inner[0] == "call" and inner[1].split("::")[-1] == "branch" and inner[2]:
+                        inner = inner[2][0]
+                        while inner[0] == "path":
+                            inner = inner[1]
+                    if inner[0] == "call" and (inner[1].endswith("from_message") or inner[1].split("::")[-1] in ("log", "write_all", "write_fmt", "flush", "write")):
+                        why = "decoding the frame / an I/O result"
+            rep.oblige(why is not None, ("reaches-updater", bi))
+            if why is None:
+                rep.add(Finding("R03.6", "%s : an accepted frame can bypass the table update" % reg.proc.name,
+                                "after get_icao returned an address, the decision `%s` can end the iteration without calling the table updater: "
+                                "a frame with a non-zero address then neither creates nor updates the row of that address" % show(de)[:120],
+                                reg.loc(bi)))
+    except Broken:
+        n6 = 0
+    rep.instances("R03.6", n6, floor=1, what="decisions between the last gate and the table update that can skip it")
     # the code run on a row: closures of the updater must not capture the table or another row; nothing reachable from the
     # row-update entries may touch the table, the counters or global state
     if not T["entries"]:
